@@ -1331,9 +1331,9 @@ func (o *ovsdbClient) handleDisconnectNotification() {
 	<-o.rpcClient.DisconnectNotify()
 	// close the stopCh, which will stop the cache event processor
 	close(o.stopCh)
-	if o.trafficSeen != nil {
-		close(o.trafficSeen)
-	}
+	// trafficSeen is not closed: a Transact that has just received its reply
+	// may still be about to signal on it (the inactivity handler stops on
+	// stopCh, and a new connection gets a new channel)
 	o.metrics.numDisconnects.Inc()
 	// wait for client related handlers to shutdown
 	o.handlerShutdown.Wait()
